@@ -16,7 +16,7 @@ RULE = ('exhaustive stratum: every labelled connected graph with degree <= 4 on 
         '(<= 5 rings) and n = 8 (<= 3 rings) in thorough, each given to the ring finder and, for a sample, built as a carbon '
         'skeleton molecule so that marks and caches are exercised; random stratum: corpus, curated polycycles, generated '
         'fused/spiro/bridged assemblies and macrocycles under random renumbering with coordinate bonds added. oracle: independent '
-        'bridge/block finder, cycle enumeration and GF(2) minimum cycle basis. non-trivial = cyclomatic number >= 2; '
+        'two-assembly molecules; a rejected transaction that looked at the rings of the edited state; the original after a copy was renumbered. bridge/block finder, cycle enumeration and GF(2) minimum cycle basis. non-trivial = cyclomatic number >= 2; '
         'distinct by labelled edge set / canonical string')
 ASSUMPTIONS = ['reference minimum-cycle-basis sizes from exhaustive simple-cycle enumeration per biconnected block (vf/oracles/mcb.py)',
                'recorded heuristic gap (property text): ring blocks containing a pair of branch atoms joined by three internally '
